@@ -137,6 +137,34 @@ pub fn read_request_padded(rng: &mut Rng, n: usize, total: Option<usize>) -> Sup
     r.into()
 }
 
+/// OpenSecureChannel / CloseSecureChannel messages (they travel in OPN / CLO chunks; an OPN chunk has the
+/// asymmetric security header). `nonce` bytes make the OPN message as long as wanted.
+pub fn channel_message(kind: &str, nonce: usize) -> SupportedMessage {
+    match kind {
+        "opn-req" => OpenSecureChannelRequest {
+            request_header: RequestHeader::new(&NodeId::null(), &DateTime::null(), 1),
+            client_protocol_version: 0,
+            request_type: SecurityTokenRequestType::Issue,
+            security_mode: MessageSecurityMode::None,
+            client_nonce: if nonce == 0 { ByteString::null() } else { ByteString::from(vec![5u8; nonce]) },
+            requested_lifetime: 60000,
+        }
+        .into(),
+        "opn-resp" => OpenSecureChannelResponse {
+            response_header: ResponseHeader::new_good(&RequestHeader::new(&NodeId::null(), &DateTime::null(), 1)),
+            server_protocol_version: 0,
+            security_token: ChannelSecurityToken { channel_id: 1, token_id: 1, created_at: DateTime::null(), revised_lifetime: 60000 },
+            server_nonce: if nonce == 0 { ByteString::null() } else { ByteString::from(vec![6u8; nonce]) },
+        }
+        .into(),
+        "clo-resp" => CloseSecureChannelResponse {
+            response_header: ResponseHeader::new_good(&RequestHeader::new(&NodeId::null(), &DateTime::null(), 1)),
+        }
+        .into(),
+        _ => CloseSecureChannelRequest { request_header: RequestHeader::new(&NodeId::null(), &DateTime::null(), 4) }.into(),
+    }
+}
+
 /// An `AsyncWrite` that accepts at most `accept` bytes of one write.
 struct Sink {
     accept: usize,
@@ -402,6 +430,10 @@ fn gen_tx(rng: &mut Rng, _tier: Tier, out: &mut Vec<String>) {
                     let t = *rng.pick(&[cap - 1, cap, cap + 1, 2 * cap - 1, 2 * cap, 2 * cap + 1, 20000]);
                     let k = rng.below(4) as usize;
                     read_request_padded(rng, k, Some(t))
+                } else if rng.chance(1, 4) {
+                    // OPN / CLO chunk types on the sender
+                    let nonce = *rng.pick(&[0usize, 0, 32, 8100, 8200, 17000]);
+                    channel_message(*rng.pick(&["opn-req", "opn-req", "clo-req", "opn-resp", "clo-resp"]), nonce)
                 } else {
                     let k = rng.below(6) as usize;
                     read_request(rng, k)
@@ -435,12 +467,197 @@ fn gen_tx(rng: &mut Rng, _tier: Tier, out: &mut Vec<String>) {
     out.push("pump [100000,100000,100000,100000,100000,100000,100000,100000]".to_string());
 }
 
+
+// ------------------------------------------------------------------------------------------------
+// systematic part: every frame type x declared size x delivered length at the boundaries, every
+// string / UTF-8 class, every send-buffer guard at its boundary
+// ------------------------------------------------------------------------------------------------
+
+fn frame_with(code: &[u8; 4], declared: u32, total_len: usize, fill: u8) -> Vec<u8> {
+    let mut v = code.to_vec();
+    v.extend_from_slice(&declared.to_le_bytes());
+    while v.len() < total_len {
+        v.push(fill);
+    }
+    v.truncate(total_len.max(8));
+    v
+}
+
+fn err_frame_with_reason(len_field: u32, reason: &[u8]) -> Vec<u8> {
+    let mut v = b"ERRF".to_vec();
+    v.extend_from_slice(&((16 + reason.len()) as u32).to_le_bytes());
+    v.extend_from_slice(&0x80010000u32.to_le_bytes());
+    v.extend_from_slice(&len_field.to_le_bytes());
+    v.extend_from_slice(reason);
+    v
+}
+
+fn hel_frame_with_url(len_field: u32, url: &[u8], extra: usize) -> Vec<u8> {
+    let mut v = b"HELF".to_vec();
+    v.extend_from_slice(&((32 + url.len() + extra) as u32).to_le_bytes());
+    for x in [0u32, 8196, 8196, 0, 0] {
+        v.extend_from_slice(&x.to_le_bytes());
+    }
+    v.extend_from_slice(&len_field.to_le_bytes());
+    v.extend_from_slice(url);
+    v.extend(std::iter::repeat(0u8).take(extra));
+    v
+}
+
+pub fn gen_systematic(rng: &mut Rng, out: &mut Vec<String>) {
+    // (1) header x size x delivered length
+    let codes: [&[u8; 4]; 11] = [b"HELF", b"ACKF", b"ERRF", b"MSGF", b"MSGC", b"MSGA", b"OPNF", b"CLOF", b"HELC", b"XXXF", b"MSGX"];
+    for max_msg in [0u32, 64] {
+        for code in codes {
+            out.push(format!("reset rx {} 100", max_msg));
+            let mut sizes: Vec<u32> = vec![0, 1, 7, 8, 9, 11, 12, 13, 27, 28, 29, 32, 40];
+            if max_msg > 0 {
+                sizes.extend([max_msg - 1, max_msg, max_msg + 1, max_msg + 2, u32::MAX]);
+            }
+            for size in sizes {
+                for delivered in [size as i64 - 1, size as i64, size as i64 + 1, 8, 9] {
+                    if delivered < 1 || delivered > 200 {
+                        continue;
+                    }
+                    let f = frame_with(code, size, delivered as usize, 0);
+                    out.push(format!("stream [] x{}", hex(&f[..(delivered as usize).min(f.len())])));
+                }
+            }
+        }
+    }
+    // (2) strings: null, negative, around max_string_length, short, trailing bytes — in HEL and ERR
+    for max_str in [0u32, 4, 30] {
+        out.push(format!("reset rx 0 {}", max_str));
+        for len_field in [u32::MAX, u32::MAX - 1, 0x8000_0000, 0x7fff_ffff] {
+            out.push(format!("stream [] x{}", hex(&err_frame_with_reason(len_field, b""))));
+            out.push(format!("stream [] x{}", hex(&hel_frame_with_url(len_field, b"", 0))));
+        }
+        for l in [0u32, 1, max_str.saturating_sub(1), max_str, max_str + 1, max_str + 2] {
+            let body = vec![b'a'; l as usize];
+            out.push(format!("stream [] x{}", hex(&err_frame_with_reason(l, &body))));
+            out.push(format!("stream [] x{}", hex(&hel_frame_with_url(l, &body, 0))));
+            out.push(format!("stream [] x{}", hex(&hel_frame_with_url(l, &body, 3)))); // trailing bytes
+            if l > 0 {
+                out.push(format!("stream [] x{}", hex(&err_frame_with_reason(l, &body[1..])))); // one byte short
+                out.push(format!("stream [] x{}", hex(&hel_frame_with_url(l + 5, &body, 0)))); // far short
+            }
+        }
+    }
+    // (3) UTF-8: every class of `String::from_utf8`, valid and at each way of being invalid
+    out.push("reset rx 0 100".to_string());
+    let seqs: Vec<Vec<u8>> = vec![
+        vec![0x41], vec![0x7f], vec![0x80], vec![0xbf], vec![0xc0, 0x80], vec![0xc1, 0xbf], vec![0xc2, 0x80], vec![0xdf, 0xbf],
+        vec![0xc2], vec![0xc2, 0x7f], vec![0xc2, 0xc0],
+        vec![0xe0, 0xa0, 0x80], vec![0xe0, 0x9f, 0x80], vec![0xe0, 0xa0], vec![0xe0, 0xa0, 0x7f],
+        vec![0xe1, 0x80, 0x80], vec![0xe1, 0x7f, 0x80], vec![0xe1, 0x80, 0xc0], vec![0xec, 0xbf, 0xbf],
+        vec![0xed, 0x9f, 0xbf], vec![0xed, 0xa0, 0x80], vec![0xed, 0x80, 0x7f], vec![0xee, 0x80, 0x80], vec![0xef, 0xbf, 0xbf],
+        vec![0xf0, 0x90, 0x80, 0x80], vec![0xf0, 0x8f, 0x80, 0x80], vec![0xf0, 0x90, 0x80], vec![0xf0, 0x90, 0x7f, 0x80],
+        vec![0xf0, 0x90, 0x80, 0xc0], vec![0xf1, 0x80, 0x80, 0x80], vec![0xf1, 0xc0, 0x80, 0x80], vec![0xf3, 0xbf, 0xbf, 0xbf],
+        vec![0xf3, 0x80, 0x80, 0x7f], vec![0xf4, 0x8f, 0xbf, 0xbf], vec![0xf4, 0x90, 0x80, 0x80], vec![0xf4, 0x80, 0x7f, 0x80],
+        vec![0xf5, 0x80, 0x80, 0x80], vec![0xff],
+    ];
+    for sq in &seqs {
+        for prefix in [&b""[..], &b"a"[..]] {
+            let mut b = prefix.to_vec();
+            b.extend_from_slice(sq);
+            out.push(format!("stream [] x{}", hex(&err_frame_with_reason(b.len() as u32, &b))));
+            b.push(b'z');
+            out.push(format!("stream [] x{}", hex(&err_frame_with_reason(b.len() as u32, &b))));
+        }
+    }
+    // (4) segmentation of two frames at every single cut and bytewise; feed ops incl. empty segment, after error, eof
+    let mut two = frame_with(b"MSGF", 14, 14, 7);
+    two.extend(frame_with(b"ACKF", 28, 28, 1));
+    out.push("reset rx 0 100".to_string());
+    for cut in 1..two.len() {
+        out.push(format!("stream [{}] x{}", cut, hex(&two)));
+    }
+    let ones: Vec<String> = (0..two.len()).map(|_| "1".to_string()).collect();
+    out.push(format!("stream [{}] x{}", ones.join(","), hex(&two)));
+    out.push("reset rx 0 100".to_string());
+    out.push("eof".to_string());
+    out.push("feed x".to_string());
+    out.push(format!("feed x{}", hex(&two[..1])));
+    out.push(format!("feed x{}", hex(&two[1..20])));
+    out.push("eof".to_string());
+    out.push(format!("feed x{}", hex(&two[20..])));
+    out.push("eof".to_string());
+    out.push("feed x58585846090000000000".to_string());
+    out.push("feed x00".to_string());
+    out.push("eof".to_string());
+    // (5) send buffer: buffer size around the minimum, body around max_message_size, chunk count around the limit
+    for bs in [0usize, 100, 8195, 8196, 8197] {
+        out.push(format!("reset tx {} 0 0 1 1 1", bs));
+        let m = read_request_padded(rng, 0, Some(60));
+        let (nid, bytes) = message_bytes(&m);
+        out.push(format!("write 7 {} x{}", nid, hex(&bytes)));
+        out.push("pump [100000,100000]".to_string());
+    }
+    let opn_cap = 8196 - 79;
+    let base = message_bytes(&channel_message("opn-req", 1)).1.len() - 1;
+    for kind in ["opn-req", "opn-resp", "clo-req", "clo-resp"] {
+        for total in [0usize, opn_cap - 1, opn_cap, opn_cap + 1, 2 * opn_cap, 2 * opn_cap + 1] {
+            for mc in [0usize, 2] {
+                out.push(format!("reset tx 8196 0 {} 3 9 1", mc));
+                let nonce = if total == 0 { 0 } else { total.saturating_sub(base) };
+                let m = channel_message(kind, nonce);
+                let (nid, bytes) = message_bytes(&m);
+                out.push(format!("write 7 {} x{}", nid, hex(&bytes)));
+                out.push("write 8 4 x01007702000000000000000000008202000000000000ffffffff0000000000000000000000000000000200000000000000".to_string());
+                out.push("pump [100000,100000,100000,100000,100000,100000]".to_string());
+                if kind.starts_with("clo") {
+                    break;
+                }
+            }
+            if kind.starts_with("clo") {
+                break;
+            }
+        }
+    }
+    for mm in [99usize, 100, 101] {
+        // node id (4) + body: body = 96 + ... ; total 104 -> body 100
+        out.push(format!("reset tx 8196 {} 0 1 1 {}", mm, b(mm % 2 == 0)));
+        let m = read_request_padded(rng, 0, Some(104));
+        let (nid, bytes) = message_bytes(&m);
+        out.push(format!("write 7 {} x{}", nid, hex(&bytes)));
+    }
+    let cap = 8196 - 24;
+    for mc in [0usize, 1, 2, 3] {
+        for total in [cap - 1, cap, cap + 1, 2 * cap - 1, 2 * cap, 2 * cap + 1, 3 * cap, 3 * cap + 1] {
+            out.push(format!("reset tx 8196 0 {} 1 1 1", mc));
+            let m = read_request_padded(rng, 0, Some(total));
+            let (nid, bytes) = message_bytes(&m);
+            out.push(format!("write 7 {} x{}", nid, hex(&bytes)));
+            out.push("enc".to_string());
+            out.push("write 8 4 x01007702000000000000000000008202000000000000ffffffff0000000000000000000000000000000200000000000000".to_string());
+            out.push("enc".to_string());
+            // accept 0, 1, all-but-one, exactly what is left, more than what is left
+            out.push("sink 0".to_string());
+            out.push("sink 1".to_string());
+            let first = total.min(cap) + 24;
+            out.push(format!("sink {}", first - 3));
+            out.push("sink 1".to_string());
+            out.push("sink 1".to_string());
+            out.push("sink 5".to_string());
+            out.push("enc".to_string());
+            out.push(format!("sink {}", 8196));
+            out.push("enc".to_string());
+            out.push(format!("sink {}", 100000));
+            out.push("pump [1,100000,100000,100000]".to_string());
+            out.push("sink 3".to_string());
+            out.push("enc".to_string());
+            out.push("nextid".to_string());
+        }
+    }
+}
+
 impl Prop for C11 {
     fn id(&self) -> &'static str {
         "C11"
     }
 
     fn gen(&self, rng: &mut Rng, n: usize, tier: Tier, out: &mut Vec<String>) {
+        gen_systematic(&mut Rng::new(7), out);
         for i in 0..n {
             if tier == Tier::Thorough && i % 500 == 0 {
                 gen_rx_exhaustive(rng, out);
